@@ -218,6 +218,17 @@ func getOctoSQLValue(t octosql.Type, value *fastjson.Value) (out octosql.Value, 
 				values[i] = curValue
 				outOk = outOk && curOk
 			}
+			// A key the type has no field for can't be represented, it mustn't be dropped silently.
+			obj.Visit(func(key []byte, v *fastjson.Value) {
+				known := false
+				for i := range t.Struct.Fields {
+					if t.Struct.Fields[i].Name == string(key) {
+						known = true
+						break
+					}
+				}
+				outOk = outOk && known
+			})
 			return octosql.NewStruct(values), outOk
 		}
 	case octosql.TypeIDUnion:
